@@ -398,6 +398,51 @@ def variant(rng, case, kind):
     elif kind == "supercell":
         if not per:
             return None
+        if len(per) >= 2 and rng.random() < 0.35:
+            # a NON-diagonal supercell (as ase.build.make_supercell would build it): M mixes two or three periodic axes
+            a0, a1 = rng.sample(per, 2)
+            M = [[1 if r == k else 0 for k in range(3)] for r in range(3)]
+            kind2 = rng.choice(["rot2", "shear2", "det3"] + (["three"] if len(per) == 3 else []))
+            if kind2 == "rot2":
+                M[a0][a0], M[a0][a1], M[a1][a0], M[a1][a1] = 1, 1, -1, 1
+            elif kind2 == "shear2":
+                M[a0][a0], M[a0][a1], M[a1][a0], M[a1][a1] = 2, 1, 0, 1
+            elif kind2 == "det3":
+                M[a0][a0], M[a0][a1], M[a1][a0], M[a1][a1] = 1, 2, -1, 1
+            else:
+                M = [[1, 1, 0], [0, 1, 1], [1, 0, 1]]
+            dM = det3(M)
+            if dM == 0 or n * abs(dM) > 30:
+                return None
+            # adjugate (M' M = M M' = det.I) and the coset representatives r with r M^-1 in [0,1)^3
+            adj = [[(M[(j + 1) % 3][(i + 1) % 3] * M[(j + 2) % 3][(i + 2) % 3] - M[(j + 1) % 3][(i + 2) % 3] * M[(j + 2) % 3][(i + 1) % 3])
+                    for j in range(3)] for i in range(3)]
+            reps_ = []
+            for x in range(-3, 4):
+                for y in range(-3, 4):
+                    for z in range(-3, 4):
+                        r = (x, y, z)
+                        sfr = [Fraction(sum(r[k] * adj[k][m] for k in range(3)), dM) for m in range(3)]
+                        if all(0 <= q < 1 for q in sfr):
+                            reps_.append(r)
+            reps_.sort(key=lambda r: (r != (0, 0, 0), r))
+            if len(reps_) != abs(dM):
+                return None
+            pos, nums, rad, at_l, sh_l = [], [], [], [], []
+            for r in reps_:
+                for i in range(n):
+                    pos.append([case["positions"][i][d_] + sum(r[a] * case["cell"][a][d_] for a in range(3)) for d_ in range(3)])
+                    nums.append(case["numbers"][i])
+                    at_l.append(i)
+                    sh_l.append(list(r))
+                    if not isinstance(case["radii"], str):
+                        rad.append(case["radii"][i])
+            c["positions"], c["numbers"] = pos, nums
+            if not isinstance(case["radii"], str):
+                c["radii"] = rad
+            c["cell"] = [[sum(M[r][k] * case["cell"][k][d_] for k in range(3)) for d_ in range(3)] for r in range(3)]
+            c["meta"] = dict(c["meta"], variant=kind, supercell_matrix=M, adjugate=adj, det=dM, at=at_l, sh=sh_l)
+            return c
         rep = [1, 1, 1]
         for a in per:
             if rng.random() < 0.6:
@@ -733,9 +778,20 @@ def run(ctx):
         if kind == "supercell":
             # hypothesis of the supercell theorem (Geometry/Supercell.v, supercell_repeat_rankZ_nat): the repeated presentation covers the
             # base presentation -- evaluated inside Coq on the two lists of bonded image pairs
-            rep = v["meta"]["repeats"]
-            t = "andb (%s) (cover_repeat_b %s %s %s %s %s %s %s %s)" % (t, nat(len(b["numbers"])), nat(len(v["numbers"])), pbc_lit(b["pbc"]),
-                                                                   e_lit(b["_orc"]["E"]), e_lit(v["_orc"]["E"]), nat(rep[0]), nat(rep[1]), nat(rep[2]))
+            if "supercell_matrix" in v["meta"]:
+                mt = v["meta"]
+
+                def mlit(A):
+                    return "(%s)%%Z" % ", ".join("(%d, %d, %d)" % tuple(row) for row in A)
+                t = "andb (%s) (cover_b %s %s %s %s %s %s %s (%d)%%Z (fun u => nth u %s 0%%nat) (fun u => nth u %s ozero))" % (
+                    t, nat(len(b["numbers"])), nat(len(v["numbers"])), pbc_lit(b["pbc"]), e_lit(b["_orc"]["E"]), e_lit(v["_orc"]["E"]),
+                    mlit(mt["supercell_matrix"]), mlit(mt["adjugate"]), mt["det"], C.listlit(nat(x) for x in mt["at"]),
+                    C.listlit("(%d, %d, %d)%%Z" % tuple(r) for r in mt["sh"]))
+                dist["non_diagonal_supercell_pairs"] = dist.get("non_diagonal_supercell_pairs", 0) + 1
+            else:
+                rep = v["meta"]["repeats"]
+                t = "andb (%s) (cover_repeat_b %s %s %s %s %s %s %s %s)" % (t, nat(len(b["numbers"])), nat(len(v["numbers"])), pbc_lit(b["pbc"]),
+                                                                       e_lit(b["_orc"]["E"]), e_lit(v["_orc"]["E"]), nat(rep[0]), nat(rep[1]), nat(rep[2]))
             dist["supercell_pairs_with_cover_relation_checked_in_coq"] = dist.get("supercell_pairs_with_cover_relation_checked_in_coq", 0) + 1
         terms.append((base + k, t))
     t0 = time.time()
